@@ -14,6 +14,7 @@ Non-vacuity: examples over the symbolic instance `B = Term`, checked by the kern
 Tie: family `legit`.
 -/
 import Macaroon.Lemmas.Legit
+import Macaroon.Lemmas.AddSucceeds
 import Macaroon.Crypto.Symbolic
 
 namespace Macaroon.Props.C05
@@ -218,6 +219,86 @@ theorem firstParty_order [LawfulCrypto B] (k : B) (m : Mac B) (added : List (Cav
 theorem collapse_calls (acc xs ys : List (Cav B)) : collapse (collapse acc xs) ys = collapse acc (xs ++ ys) :=
   (collapse_append acc xs ys).symm
 
+/-! ### `Add` succeeds: the success hypotheses of `Legit` are dischargeable from the arguments -/
+
+/-- [lawful] `add_succeeds`: `Add` returns nil when the token is not a finalised proof, every caveat of
+the token and of the arguments can be encoded, no plain argument is an attestation (unless the token
+is a proof) or wraps one, and the new third-party arguments name pairwise different locations none of
+which the token already has a third-party caveat for.  (`TpEncodable`: a third-party caveat can
+always be encoded — true of both instances, `tpEncodable_term` here, `tpEncodable_bytes` in
+Props/Concrete.lean.) -/
+theorem add_succeeds [LawfulCrypto B] (htp : TpEncodable B) (m : Mac B) (items : List (AddItem B))
+    (hf : (m.nonce.proof && !m.newProof) = false) (he : allEncodable m items = true)
+    (hp : ∀ c, AddItem.plain c ∈ items → (c.isAttestation && !m.nonce.proof) = false ∧ c.wrapsAttestation = false)
+    (hnd : (newLocs items).Nodup) (hfr : ∀ l ∈ newLocs items, l ∉ locs3P m.cavs) :
+    (add m items).2 = none :=
+  Lemmas.add_succeeds htp m items hf he hp hnd hfr
+
+/-- [lawful] on a legitimate token the call succeeds and the result is legitimate, from conditions on
+the arguments alone -/
+theorem legit_add_succeeds [LawfulCrypto B] (htp : TpEncodable B) (k : B) (m : Mac B) (hL : Legit k m)
+    (items : List (AddItem B)) (hit : ∀ it ∈ items, LegitItem it)
+    (henc : ∀ c, AddItem.plain c ∈ items → ∀ t : B, (macCav t c).isSome = true)
+    (hnd : (newLocs items).Nodup) (hfr : ∀ l ∈ newLocs items, l ∉ locs3P m.cavs) :
+    (add m items).2 = none ∧ Legit k (add m items).1 :=
+  Lemmas.legit_add_succeeds htp k m hL items hit henc hnd hfr
+
+/-- [lawful] `legit_add_then_verifies`: "any field values ⇒ `Add` succeeds ⇒ verifies".  A holder of a
+legitimate token adds ordinary caveats of any kinds and values that can be encoded and fresh
+third-party caveats for new, pairwise different locations: the call succeeds, and the resulting
+token, presented with one good discharge per third-party caveat, is accepted and yields its
+first-party caveats followed by the discharges' kept caveats — `legit_verifies` with no success
+hypothesis left. -/
+theorem legit_add_then_verifies [LawfulCrypto B] (htp : TpEncodable B) (k : B) (m : Mac B) (hL : Legit k m)
+    (items : List (AddItem B)) (hit : ∀ it ∈ items, LegitItem it)
+    (henc : ∀ c, AddItem.plain c ∈ items → ∀ t : B, (macCav t c).isSome = true)
+    (hnd : (newLocs items).Nodup) (hfr : ∀ l ∈ newLocs items, l ∉ locs3P m.cavs)
+    (dms : List (Mac B)) (tr : Bytes → List B) (dbs : List (Mac B × Bool))
+    (h : Aligned (GoodDischarge k (add m items).1 dms tr) (secrets k (add m items).1) dbs) :
+    (add m items).2 = none ∧
+    verify k (add m items).1 dms tr =
+      .ok ((add m items).1.cavs.filter (kept true) ++ (dbs.map contrib).flatten) := by
+  obtain ⟨hok, hL'⟩ := Lemmas.legit_add_succeeds htp k m hL items hit henc hnd hfr
+  exact ⟨hok, legit_verifies k _ hL' dms tr dbs h⟩
+
+/-- [lawful] `firstParty_history_verifies`: a whole mint-side history given by its DATA alone — the nonce
+format and the argument lists of any number of `Add` calls, ordinary caveats of any registered kinds
+and field values that can be encoded: every call succeeds, and the token verifies under the minting
+key, with any discharges alongside, yielding the added caveats in the order of addition with equal
+encodings collapsed onto the first occurrence -/
+theorem firstParty_history_verifies [LawfulCrypto B] (htp : TpEncodable B) (k kid : B) (loc : Bytes) (rnd : B)
+    (ver : Nat) (calls : List (List (Cav B)))
+    (hall : ∀ cs ∈ calls, ∀ c ∈ cs, ordinary c = true ∧ ∀ t : B, (macCav t c).isSome = true)
+    (dms : List (Mac B)) (tr : Bytes → List B) :
+    Legit k (addAll (mintV k kid loc rnd ver false) calls) ∧
+    (addAll (mintV k kid loc rnd ver false) calls).cavs = collapse [] calls.flatten ∧
+    verify k (addAll (mintV k kid loc rnd ver false) calls) dms tr = .ok (collapse [] calls.flatten) := by
+  have h := plainHist_addAll htp k calls _ [] (.minted kid loc rnd ver) hall
+  rw [List.nil_append] at h
+  have := firstParty_order k _ _ h dms tr
+  exact ⟨plainHist_legit k _ _ h, this.1, this.2⟩
+
+/-- [lawful] `history_verifies`: a whole mint-side history WITH third-party caveats, given by its data alone —
+nonce format and the argument lists of any number of `Add` calls: ordinary caveats of any kinds and
+values that can be encoded (holding no third-party caveat inside a wrapper), fresh third-party
+caveats for pairwise different locations.  Every call succeeds, the token is legitimate, and
+presented with one good discharge per third-party caveat it is accepted and yields its first-party
+caveats followed by the discharges' kept caveats.  No success hypothesis anywhere. -/
+theorem history_verifies [LawfulCrypto B] (htp : TpEncodable B) (k kid : B) (loc : Bytes) (rnd : B) (ver : Nat)
+    (calls : List (List (AddItem B)))
+    (hit : ∀ its ∈ calls, ∀ it ∈ its, LegitItem it ∧ noInner3P it)
+    (henc : ∀ its ∈ calls, ∀ c, AddItem.plain c ∈ its → ∀ t : B, (macCav t c).isSome = true)
+    (hnd : (newLocs calls.flatten).Nodup)
+    (dms : List (Mac B)) (tr : Bytes → List B) (dbs : List (Mac B × Bool))
+    (h : Aligned (GoodDischarge k (addCalls (mintV k kid loc rnd ver false) calls) dms tr)
+      (secrets k (addCalls (mintV k kid loc rnd ver false) calls)) dbs) :
+    Legit k (addCalls (mintV k kid loc rnd ver false) calls) ∧
+    verify k (addCalls (mintV k kid loc rnd ver false) calls) dms tr =
+      .ok ((addCalls (mintV k kid loc rnd ver false) calls).cavs.filter (kept true) ++ (dbs.map contrib).flatten) := by
+  have hL := legit_addCalls htp k calls (mintV k kid loc rnd ver false) (.minted kid loc rnd ver) hit henc
+    (by simpa [mintV, locs3P, getCaveats] using hnd)
+  exact ⟨hL, legit_verifies k _ hL dms tr dbs h⟩
+
 /-! ### non-vacuity (symbolic instance) -/
 
 section examples
@@ -347,6 +428,56 @@ theorem sym_trust_never_refuses (keys : List Term) (ka tn rn : Term) (cs : List 
       exact hb
 example := sym_trust_never_refuses [atom 7, atom 5] (atom 5) (atom 12) (atom 11) [.isUser 3]
 
+/-- the symbolic instance can encode every third-party caveat (every caveat, in fact) -/
+theorem tpEncodable_term : TpEncodable Term := fun _ _ _ _ => rfl
+
+-- `add_succeeds`, `legit_add_succeeds`, `legit_add_then_verifies`: the second holder's call of the running example
+example : (add (encodeState m1) [.plain (.isUser 7), .plain (.action 1)]).2 = none :=
+  add_succeeds tpEncodable_term _ _ (by rfl) (by rfl) (by
+    intro c hc
+    simp only [List.mem_cons, List.not_mem_nil, or_false, AddItem.plain.injEq] at hc
+    rcases hc with rfl | rfl <;> exact ⟨rfl, rfl⟩) (by decide) (by intro l hl; cases hl)
+example := legit_add_succeeds tpEncodable_term (atom 0) m0 (.minted _ _ _ 1) [.plain (.isUser 7), item3p]
+  (by
+    intro it hit
+    simp only [List.mem_cons, List.not_mem_nil, or_false] at hit
+    rcases hit with rfl | rfl
+    · exact .plain _ rfl
+    · exact .new3p _ _ _ _ trivial)
+  (fun _ _ _ => rfl) (by decide) (by intro l hl; simp [m0, mint, locs3P, getCaveats])
+example := legit_add_then_verifies tpEncodable_term (atom 0) (encodeState m1) (.encoded _ m1_legit)
+  [.plain (.isUser 7), .plain (.action 1)]
+  (by
+    intro it hit
+    simp only [List.mem_cons, List.not_mem_nil, or_false] at hit
+    rcases hit with rfl | rfl
+    · exact .plain _ rfl
+    · exact .plain _ rfl)
+  (fun _ _ _ => rfl) (by decide) (by intro l hl; cases hl) [d2] trusted5 [(d2, true)] m2_good
+-- a whole first-party history from its data
+example : verify (atom 0) (addAll (mintV (atom 0) (lit [1]) [] (atom 1) 1 false)
+      [[.isUser 7, .action 1], [.action 1, .isUser 8, .isUser 7]]) [] (fun _ => []) =
+    .ok [.isUser 7, .action 1, .isUser 8] :=
+  (firstParty_history_verifies tpEncodable_term (atom 0) (lit [1]) [] (atom 1) 1
+    [[.isUser 7, .action 1], [.action 1, .isUser 8, .isUser 7]]
+    (by intro cs hcs c hc; exact ⟨by revert c; revert cs; decide, fun _ => rfl⟩) [] (fun _ => [])).2.2
+
+-- a whole history with a third-party caveat from its data: the running example `m2`
+example : addCalls (mintV (atom 0) (lit [1]) [] (atom 1) 1 false)
+    [[.plain (.isUser 7), item3p], [.plain (.isUser 7), .plain (.action 1)]] = m2 := by rfl
+example := history_verifies tpEncodable_term (atom 0) (lit [1]) [] (atom 1) 1
+  [[.plain (.isUser 7), item3p], [.plain (.isUser 7), .plain (.action 1)]]
+  (by
+    intro its hits it hit
+    simp only [List.mem_cons, List.not_mem_nil, or_false] at hits
+    rcases hits with rfl | rfl <;> simp only [List.mem_cons, List.not_mem_nil, or_false] at hit <;>
+      rcases hit with rfl | rfl
+    · exact ⟨.plain _ rfl, rfl⟩
+    · exact ⟨.new3p _ _ _ _ trivial, trivial⟩
+    · exact ⟨.plain _ rfl, rfl⟩
+    · exact ⟨.plain _ rfl, rfl⟩)
+  (fun _ _ _ _ _ => rfl) (by decide) [d2] trusted5 [(d2, true)] m2_good
+
 end examples
 
 end Macaroon.Props.C05
@@ -369,6 +500,12 @@ end Macaroon.Props.C05
 #print axioms Macaroon.Props.C05.firstParty_order_add
 #print axioms Macaroon.Props.C05.firstParty_order
 #print axioms Macaroon.Props.C05.collapse_calls
+#print axioms Macaroon.Props.C05.add_succeeds
+#print axioms Macaroon.Props.C05.legit_add_succeeds
+#print axioms Macaroon.Props.C05.legit_add_then_verifies
+#print axioms Macaroon.Props.C05.firstParty_history_verifies
+#print axioms Macaroon.Props.C05.history_verifies
+#print axioms Macaroon.Props.C05.tpEncodable_term
 #print axioms Macaroon.Props.C05.m1_legit
 #print axioms Macaroon.Props.C05.m2_legit
 #print axioms Macaroon.Props.C05.d2_legit
